@@ -253,7 +253,11 @@ class Check(PropertyCheck):
             # SQLite's own recovery makes of the file and its hot journal), once - on an untouched copy - by a new BuildDB
             d2 = d + ".next"
             shutil.rmtree(d2, ignore_errors=True)
-            shutil.copytree(d, d2)
+            big = sum(os.path.getsize(os.path.join(d, f)) for f in os.listdir(d)) > (1 << 20)
+            if big:
+                d2 = d          # (large survivors are not copied: plain sqlite3 looks first, as for every survivor before)
+            else:
+                shutil.copytree(d, d2)
             rc2, o2, e2 = C.run_lines([exe, "db", d], ["raw"])
             raw = o2[0] if o2 else "error=noout"
             snap = None
@@ -406,8 +410,8 @@ class Check(PropertyCheck):
         base = os.path.join(C.BUILD, "scratch", "c04e-%d" % os.getpid())
         shutil.rmtree(base, ignore_errors=True)
         os.makedirs(base)
-        nh = 12 if ctx.thorough else 4
-        per = 40 if ctx.thorough else 10
+        nh = 8 if ctx.thorough else 4
+        per = 30 if ctx.thorough else 10
         st = {"histories": 0, "kill_points_fired": 0, "continued_builds_compared": 0, "continued_builds_failed_or_cyclic": 0}
 
         def run(lines, env=None, timeout=120):
